@@ -337,6 +337,15 @@ def run(cx):
             region |= co.reachable_from(y)
         _, sites = panic_sites(prog, [f"{RH_}::start"], crates=["anemo"])
         ob.count(len(region))
+        # ... nor does what it calls there: the removal from the peer map (ActivePeers / ActivePeersInner) has no panic of its own
+        # (C06.1a re-evaluated for the peer-map code; the lock-poisoning unwraps are discharged there)
+        from . import c06
+        sub6 = cx.__class__("C05", prog, cx.tier, cx.config, cx.tree, repo=cx.repo)
+        c06.run(sub6)
+        w6 = [x for x in sub6.obs if x.oid == "C06.1a"]
+        bad6 = [v for x in w6 for v in x.violations if "connection_manager::ActivePeers" in v.key]
+        ob.require(len(w6) == 1 and not bad6, "handler-exit/peer-map-code-panics", "the peer-map code a finishing handler runs can panic: " + "; ".join(str(v.msg) for v in bad6)[:300],
+                   "anemo::network::connection_manager::ActivePeers::remove_with_stable_id")
         for s in sites:
             if s["body"] == co.path and s["bb"] in region and not static_bounds_ok(s, co):
                 ob.fail("refuted", f"handler-exit/panic/{s['what']}", f"panic-capable construct `{s['what']}` on the connection handler's exit path (after its loop)", co.path, co.loc(s["bb"]))
